@@ -1,5 +1,6 @@
 import Verif.Model.Config
 import Verif.Model.Host
+import Verif.Gen.Legacy
 import Verif.Lemmas.Config
 
 /-! # C20 — every host entry point launches exactly the server the configuration names
@@ -366,6 +367,17 @@ example : act [] "/h" ["--server", "db"] = .noConfig := by decide
 example : act ["config.json"] "/h" ["-l", "--server", "db"] = .list "config.json" := by decide
 example : act ["config.json"] "/h" ["--server"] = .usage ∧ act [] "/h" ["db"] = .usage
     ∧ act [] "/h" ["--server", "--verbose"] = .usage := by decide
+
+/-! ## The legacy import paths (`chuk_mcp.mcp_client` re-exports and module shims; table by introspection) -/
+
+theorem c20_legacy_translated : Verif.Gen.Legacy.translatable = true := by decide
+
+/-- every legacy import path of a host entry point resolves to the VERY SAME object as the present-day
+name it stands for — a host written against the old package layout launches through the same code -/
+theorem c20_legacy_aliases_same_object :
+    ∀ r ∈ Verif.Gen.Legacy.exports, r.2.2.1 = r.2.2.2 := by decide +kernel
+
+example : Verif.Gen.Legacy.exports ≠ [] := by decide
 
 end Host
 
